@@ -85,20 +85,38 @@ func runGio(c *Ctx) {
 		name := core.FuncName(d.Obj)
 		c.Walk("R15", &core.Config{Follow: samePkgFollow(d.Pkg.PkgPath)}, core.Entry{Decl: d}, func(p *core.Path) {
 			adv := false
+			var count *types.Var
 			for _, ev := range p.Events {
-				if ev.Kind == core.KAssign && ev.Var != nil && core.FieldName(ev.Var) == "ioseek.ReaderAtSeeker.offset" && ev.Tok == token.ADD_ASSIGN {
-					// the amount is (a conversion of) the count the call returns
-					adv = false
-					var res0 *types.Var
-					if rs := d.Decl.Type.Results; rs != nil && len(rs.List) > 0 && len(rs.List[0].Names) > 0 {
-						res0, _ = d.Pkg.TypesInfo.Defs[rs.List[0].Names[0]].(*types.Var)
+				// the count: the first result of the ReadAt call, whatever variable receives it
+				if ev.Kind == core.KAssign && ev.RhsIdx == 0 && ev.Rhs != nil {
+					if call, ok := unparen(ev.Rhs).(*ast.CallExpr); ok {
+						if _, isReadAt := callSel(call, "ReadAt"); isReadAt {
+							count = identVar(ev.Lhs, ev.Frame)
+						}
 					}
+				}
+				if ev.Kind == core.KAssign && ev.Var != nil && core.FieldName(ev.Var) == "ioseek.ReaderAtSeeker.offset" && ev.Rhs != nil {
+					// offset += int64(n)   or   offset = offset + int64(n): the amount is (a conversion of) the count
+					adv = false
+					mentionsCount, mentionsOffset, onlyAdd := false, ev.Tok == token.ADD_ASSIGN, true
 					ast.Inspect(ev.Rhs, func(n ast.Node) bool {
-						if id, ok := n.(*ast.Ident); ok && res0 != nil && identVar(id, ev.Frame) == res0 {
-							adv = true
+						switch x := n.(type) {
+						case *ast.Ident:
+							if count != nil && identVar(x, ev.Frame) == count {
+								mentionsCount = true
+							}
+						case *ast.SelectorExpr:
+							if fv := fieldVar(x, ev.Frame); fv != nil && core.FieldName(fv) == "ioseek.ReaderAtSeeker.offset" {
+								mentionsOffset = true
+							}
+						case *ast.BinaryExpr:
+							if x.Op != token.ADD {
+								onlyAdd = false
+							}
 						}
 						return true
 					})
+					adv = mentionsCount && mentionsOffset && onlyAdd && (ev.Tok == token.ADD_ASSIGN || ev.Tok == token.ASSIGN)
 				}
 			}
 			if p.End == core.EndReturn {
@@ -195,48 +213,108 @@ func runGio(c *Ctx) {
 	// --- ioproxy
 	if d := c.declByName("R13c", "ioproxy", "", "ProxyStreams"); d != nil {
 		name := core.FuncName(d.Obj)
+		// the pumps: whatever the two go statements start (a declared function or a local closure)
+		type pump struct {
+			decl *core.FuncDecl
+			lit  *ast.FuncLit
+		}
+		var pumps []pump
+		addPump := func(ev *core.Event) {
+			var pm pump
+			if ev.Callee != nil {
+				pm.decl = c.Prog.Decl(ev.Callee.Origin())
+			} else if ev.FunVal.Kind == core.VFuncLit {
+				pm.lit = ev.FunVal.Lit
+			}
+			if pm.decl == nil && pm.lit == nil {
+				return
+			}
+			for _, o := range pumps {
+				if o == pm {
+					return
+				}
+			}
+			pumps = append(pumps, pm)
+		}
 		c.Walk("R13c", &core.Config{Follow: samePkgFollow(d.Pkg.PkgPath)}, core.Entry{Decl: d}, func(p *core.Path) {
 			var gos []*core.Event
 			for _, ev := range p.Events {
 				if ev.Kind == core.KGo {
 					gos = append(gos, ev)
+					addPump(ev)
 				}
 			}
-			ok := len(gos) == 2 && len(gos[0].Call.Args) == 3 && len(gos[1].Call.Args) == 3 &&
+			ok := len(gos) == 2 && len(gos[0].Call.Args) >= 2 && len(gos[1].Call.Args) >= 2 &&
 				core.ExprString(gos[0].Call.Args[0]) == core.ExprString(gos[1].Call.Args[1]) &&
 				core.ExprString(gos[0].Call.Args[1]) == core.ExprString(gos[1].Call.Args[0]) &&
 				core.ExprString(gos[0].Call.Args[0]) != core.ExprString(gos[0].Call.Args[1])
 			a.note("R13c", name+"/two-swapped-pumps", d.Decl.Pos(), !ok, "two pumps are started with swapped stream arguments", "ProxyStreams does not start exactly two pumps with swapped stream arguments", p)
 		})
-	}
-	if d := c.declByName("R13c", "ioproxy", "", "proxyTo"); d != nil {
-		name := core.FuncName(d.Obj)
-		pv := paramVars(d)
-		c.Walk("R13c", &core.Config{Follow: samePkgFollow(d.Pkg.PkgPath)}, core.Entry{Decl: d}, func(p *core.Path) {
-			g := prepare(c, p)
-			closes := map[string]int{}
-			cbs := 0
-			cbNilKnown := false
-			for i, ev := range p.Events {
-				if (ev.Kind == core.KCall || ev.Kind == core.KEnter) && ev.Callee != nil && ev.Callee.Name() == "Close" {
-					if sel, ok := unparen(ev.Call.Fun).(*ast.SelectorExpr); ok {
-						closes[core.ExprString(sel.X)]++
+		if len(pumps) == 0 {
+			c.MissingAnchor("R13c", name+": the pump started by the go statements")
+		}
+		// the callback: the func() parameter of the pump, or of ProxyStreams when the pump is a closure
+		isCbType := func(t types.Type) bool {
+			sg, ok := t.Underlying().(*types.Signature)
+			return ok && sg.Params().Len() == 0 && sg.Results().Len() == 0
+		}
+		outerCb := paramWhere(d, isCbType)
+		for _, pm := range pumps {
+			var e core.Entry
+			var pname string
+			var ft *ast.FuncType
+			var pkg = d.Pkg
+			if pm.decl != nil {
+				e, pname, ft, pkg = core.Entry{Decl: pm.decl}, core.FuncName(pm.decl.Obj), pm.decl.Decl.Type, pm.decl.Pkg
+			} else {
+				pname = name + ".pump"
+				e, ft = core.Entry{Lit: pm.lit, Pkg: d.Pkg, Outer: d, Name: pname}, pm.lit.Type
+			}
+			var streams []*types.Var
+			cb := outerCb
+			for _, f := range ft.Params.List {
+				for _, n := range f.Names {
+					v, _ := pkg.TypesInfo.Defs[n].(*types.Var)
+					if v == nil {
+						continue
+					}
+					if isCbType(v.Type()) {
+						cb = v
+					} else {
+						streams = append(streams, v)
 					}
 				}
-				if ev.Kind == core.KCall && ev.Callee == nil && ev.Builtin == "" && len(pv) == 3 && identVar(ev.Call.Fun, ev.Frame) == pv[2] {
-					cbs++
-					a.requireGuard("R13c", name+"/callback-non-nil", g, i, false, fnot(eq(c.Role(pv[2]), "nil")), "calling the callback")
+			}
+			if len(streams) != 2 || cb == nil {
+				c.MissingAnchor("R13c", pname+": two stream parameters and a callback")
+				continue
+			}
+			c.Walk("R13c", &core.Config{Follow: samePkgFollow(d.Pkg.PkgPath)}, e, func(p *core.Path) {
+				g := prepare(c, p)
+				closes := map[*types.Var]int{}
+				cbs := 0
+				for i, ev := range p.Events {
+					if (ev.Kind == core.KCall || ev.Kind == core.KEnter) && ev.Callee != nil && ev.Callee.Name() == "Close" {
+						if sel, ok := unparen(ev.Call.Fun).(*ast.SelectorExpr); ok {
+							if v := identVar(sel.X, ev.Frame); v != nil {
+								closes[v]++
+							}
+						}
+					}
+					if ev.Kind == core.KCall && ev.Callee == nil && ev.Builtin == "" && identVar(ev.Call.Fun, ev.Frame) == cb {
+						cbs++
+						a.requireGuard("R13c", pname+"/callback-non-nil", g, i, false, fnot(eq(c.Role(cb), "nil")), "calling the callback")
+					}
 				}
-			}
-			if len(pv) == 3 {
-				cbNilKnown, _ = implies(g.litsBefore(len(p.Events), false), eq(c.Role(pv[2]), "nil"))
-			}
-			if p.End == core.EndReturn && len(pv) == 3 {
-				ok := closes[pv[0].Name()] == 1 && closes[pv[1].Name()] == 1 && (cbs == 1 || cbs == 0 && cbNilKnown)
-				a.note("R13c", name+"/close-both-and-call-back-once", d.Decl.Pos(), !ok, "every path closes both streams once and calls the callback once (when set)",
-					sprintf("a path of the pump closes s1 %d times, s2 %d times and calls the callback %d times", closes[pv[0].Name()], closes[pv[1].Name()], cbs), p)
-			}
-		})
+				cbNilKnown, _ := implies(g.litsBefore(len(p.Events), false), eq(c.Role(cb), "nil"))
+				if p.End == core.EndReturn {
+					ok := closes[streams[0]] == 1 && closes[streams[1]] == 1 && (cbs == 1 || cbs == 0 && cbNilKnown)
+					a.note("R13c", pname+"/close-both-and-call-back-once", entryPos(e), !ok, "every path closes both streams once and calls the callback once (when set)",
+						sprintf("a path of the pump closes its first stream %d times, its second %d times and calls the callback %d times", closes[streams[0]], closes[streams[1]], cbs), p)
+				}
+			})
+			a.expect("R13c", pname+"/close-both-and-call-back-once", 1, "paths of the pump")
+		}
 	}
 	// --- unique
 	for _, tn := range []struct {
@@ -496,11 +574,28 @@ func runGcodec(c *Ctx) {
 	if d := c.Prog.LookupFunc("prng", "randReader", "Read"); d != nil {
 		dd := c.Prog.Decl(d)
 		name := core.FuncName(d)
+		// the read position inside the buffered word: the reader's one integer field
+		offField := "?offset"
+		if rn := core.RecvNamed(d); rn != nil {
+			if st, ok := rn.Underlying().(*types.Struct); ok {
+				n := 0
+				for i := 0; i < st.NumFields(); i++ {
+					if isBasic(st.Field(i).Type(), types.IsInteger) {
+						offField = core.FieldName(st.Field(i))
+						n++
+					}
+				}
+				if n != 1 {
+					offField = "?offset"
+					c.MissingAnchor("R14c", name+": the reader's offset field (exactly one integer field expected)")
+				}
+			}
+		}
 		c.Walk("R14c", &core.Config{Follow: samePkgFollow(dd.Pkg.PkgPath)}, core.Entry{Decl: dd}, func(p *core.Path) {
 			g := prepare(c, p)
 			for i, ev := range p.Events {
-				if (ev.Kind == core.KCall || ev.Kind == core.KEnter) && ev.Callee != nil && ev.Callee.Name() == "Uint64" && strings.Contains(core.ExprString(ev.Call.Fun), "src") {
-					want := eq("0", "prng.randReader.off")
+				if (ev.Kind == core.KCall || ev.Kind == core.KEnter) && ev.Callee != nil && ev.Callee.Name() == "Uint64" && fieldVar(callRecv(ev.Call), ev.Frame) != nil {
+					want := eq("0", offField)
 					pvs := paramVars(dd)
 					var res0 *types.Var
 					if rs := dd.Decl.Type.Results; rs != nil && len(rs.List) > 0 && len(rs.List[0].Names) > 0 {
@@ -754,10 +849,33 @@ func runGqueue(c *Ctx) {
 			linked := false   // Push: newNode.next = loaded in this iteration
 			readNext := false // Pop: next := loaded.next in this iteration
 			casOK := false
+			// where a local's value came from when it was assigned from an inlined helper's result
+			type origin struct {
+				ret *core.Event
+				idx int
+			}
+			from := map[*types.Var]origin{}
+			var resolve func(e ast.Expr, fr *core.Frame, depth int) (ast.Expr, *core.Frame)
+			resolve = func(e ast.Expr, fr *core.Frame, depth int) (ast.Expr, *core.Frame) {
+				if v := identVar(e, fr); v != nil && depth < 4 {
+					if o, ok := from[v]; ok {
+						if re, _ := retResult(o.ret, o.idx); re != nil {
+							return resolve(re, o.ret.Frame, depth+1)
+						}
+					}
+				}
+				return e, fr
+			}
 			for i, ev := range p.Events {
-				if ev.Kind == core.KLoop {
+				// an attempt: one trip around the retry loop, or one call of the helper that makes the attempt
+				if ev.Kind == core.KLoop || (ev.Kind == core.KEnter && ev.Inner != nil && ev.Inner.Fn != nil) {
 					iter = i
 					linked, readNext = false, false
+				}
+				if ev.Kind == core.KAssign && !ev.FieldInit && ev.RetEv != nil {
+					if v := identVar(ev.Lhs, ev.Frame); v != nil && !v.IsField() {
+						from[v] = origin{ev.RetEv, ev.RhsIdx}
+					}
 				}
 				if ev.Kind == core.KAssign && ev.Rhs != nil && !ev.FieldInit {
 					if call, ok := unparen(ev.Rhs).(*ast.CallExpr); ok {
@@ -791,10 +909,12 @@ func runGqueue(c *Ctx) {
 					casOK = l.val == !strings.HasPrefix(l.f.String(), "!")
 				}
 				if ev.Kind == core.KReturn && ev.Frame.Parent == nil && fn == "Pop" && len(ev.Results) == 1 {
-					rs := core.ExprString(ev.Results[0])
+					// what Pop hands to its caller, looked through the results of an attempt helper
+					res, rfr := resolve(ev.Results[0], ev.Frame, 0)
+					rs := core.ExprString(res)
 					if strings.HasSuffix(rs, ".value") {
-						sel := unparen(ev.Results[0]).(*ast.SelectorExpr)
-						ok := casOK && loaded != nil && identVar(sel.X, ev.Frame) == loaded
+						sel := unparen(res).(*ast.SelectorExpr)
+						ok := casOK && loaded != nil && identVar(sel.X, rfr) == loaded
 						a.note("R10", name+"/return-swapped-node", ev.Pos, !ok, "Pop returns the value of the node it swapped out, after a successful CAS", "Pop returns a node's value without a successful CAS on that node: an element can be returned twice or while still on the stack", p)
 					} else {
 						okNil := false
@@ -852,11 +972,20 @@ func runGqueue(c *Ctx) {
 // diffUpperBound: if the branch event compares (v + a) with (len + b), return the upper bound it
 // establishes on d = v - len on this path. v and len are given as canonical terms.
 func diffUpperBound(g *gpath, j int, b *core.Event, vTerm, lenTerm string) (int, bool) {
-	be, ok := unparen(b.Cond).(*ast.BinaryExpr)
+	gb := g.builderAt(j)
+	cond := unparen(b.Cond)
+	// a named boolean (exceedsData := paddingLen > len(data)-1) stands for the comparison it names
+	if id, isId := cond.(*ast.Ident); isId {
+		if v := identVar(id, b.Frame); v != nil {
+			if d, has := gb.defs[v]; has && gb.usable(d) && d.fr == b.Frame {
+				cond = unparen(d.expr)
+			}
+		}
+	}
+	be, ok := cond.(*ast.BinaryExpr)
 	if !ok {
 		return 0, false
 	}
-	gb := g.builderAt(j)
 	lin := func(e ast.Expr) (hasV, hasL bool, k int, ok bool) {
 		// linear form: term, term - c, term + c, c
 		e = unparen(e)
@@ -998,4 +1127,15 @@ func readsElements(e ast.Expr) bool {
 		return !found
 	})
 	return found
+}
+
+// callRecv is the receiver expression of a method call x.M(...), nil otherwise.
+func callRecv(call *ast.CallExpr) ast.Expr {
+	if call == nil {
+		return nil
+	}
+	if sel, ok := unparen(call.Fun).(*ast.SelectorExpr); ok {
+		return sel.X
+	}
+	return nil
 }
